@@ -51,10 +51,10 @@ CHECKS = {
  'C08': dict(cat='proof', tech='Rocq proof (read faults in sync and scrub leave the stripe unsynced or bad with a failing status; error limit; exit status failing for every write fault and writer schedule; every failed parity write leaves its stripe marked bad with a failing status, for every writer schedule, since the repair 0ecd44a) + fault enumeration: EIO/ENOSPC at every pread/pwrite index with cache depths 1..128, compared with the extracted writer-accounting model',
              text='Read-fault safety and write-fault safety (failing status, stripe marked bad, frame) are proved for all runs, fault sequences and writer schedules of the sync/scrub models; the stripe-state half was false of the pinned tree and is repaired by /repo 0ecd44a (regression Examples kept). Every injected fault of real runs is judged by exit status, decoded content, status, and repair by fix -e / sync verified with the independent parity checker.',
              ref='4/C08'),
- 'C01': dict(cat='proof', tech='Rocq proof per stripe step of the check/fix model (repair enumerates parity combinations, rejects damaged levels by hash, restores the recorded vector when damaged blocks <= intact levels; a following check is quiet) + command-level correspondence and an independent byte/mtime snapshot over every subset of <= np destroyed devices on small geometries',
+ 'C01': dict(cat='proof', tech='Rocq proof on the check/fix model, per stripe step and lifted to the WHOLE RUN (check_run over all stripes with frame lemmas: every file back with recorded size, blocks and time-stamp, every parity row re-encoded, objects restored, exit 0, clean-up a no-op, a following check quiet; repair enumerates parity combinations, rejects damaged levels by hash) + command-level correspondence and an independent byte/mtime snapshot over every subset of <= np destroyed devices on small geometries',
              text='fix_restores is proved for one stripe position of the transcribed repair/fix step under collision-freedom on the finite block set; the whole run (files spanning stripes, links, dirs, exit status) is tied to the binary by correspondence and judged by an independent snapshot after fix and check on exhaustive device subsets.',
              ref='4/C01'),
- 'C04': dict(cat='proof', tech='Rocq proof (check/scrub stripe steps emit exactly one error tag per damaged block and one parity_error per inconsistent level, nothing on an undamaged stripe; bad mark formula) + every single block of every file and parity level corrupted in turn on the real binary, tag sets compared for equality',
+ 'C04': dict(cat='proof', tech='Rocq proof (check/scrub stripe steps and WHOLE RUNS emit exactly one located error tag per damaged block and one parity_error per inconsistent level of a recoverable stripe, nothing on undamaged stripes, files and parity untouched, failing status iff some damage; scrub marks exactly the damaged planned stripes bad and refreshes the others) + every single block of every file and parity level corrupted in turn on the real binary, tag sets compared for equality',
              text='Location and no-false-alarm theorems on the stripe-step models; real runs with each block corrupted (bit, byte, block, zeroed, swapped) must report exactly the predicted tag sets, exit status and bad marks.',
              ref='4/C04'),
  'C05': dict(cat='proof', tech='Rocq proof: fix_never_wrong stated in full, refuted by concrete witness histories (vm_compute) for the open findings b, c, d; proved under PastHashInv (partial); regression theorem for the repaired F-C05a + histories with a version store on the real binary, wrong results attributed to a finding only by an independent diagnosis',
